@@ -81,6 +81,13 @@
 //     buf.ReadFrom(r) appends everything r delivers. Write/Read/Next/ReadFrom on a buffer that is a FIELD rebinds
 //     the field and counts as writing through the receiver (the method returns the new receiver). `uint32(i)` of an
 //     int is UInt32.ofInt (mod 2^32).
+//   - (fnarg.go) a LOCAL `map[K]V` is an association list (only the empty literal, `m[k]`, `v, ok := m[k]`, `m[k] = v`;
+//     handed on, ranged over, `len`, `delete`: rejected — a map is a reference); a local `hash.Hash` made by `alg.New()` is
+//     the algorithm and the bytes written (`io.Copy(h, r)`, `h.Write(b)`; `h.Sum(b)` through the Ext field
+//     `crypto_Hash_Sum`); a local closure handed to an opaque function (a function-typed parameter) is a STATE MACHINE over
+//     the captured variables it assigns: the external gets the state type, the step function and the state and returns the
+//     state it leaves — an arbitrary function of these; that it only calls the step function is a hypothesis of theorems,
+//     never of the translation. A closure name used in any other way is rejected.
 package main
 
 import (
@@ -184,6 +191,7 @@ type fnDecl struct {
 	usesExt  bool
 	usesExtLoop bool
 	mutParams []int // indices of reader parameters the function consumes: returned (after the receiver) as new values
+	fnParams  []int // opaque functions: indices of function-typed parameters (fnarg.go)
 	usesFuel bool   // contains (transitively) an unbounded `for` loop: takes a fuel argument
 	opaque   bool   // external: calls go through <pkg>.Ext
 	usesX    string // package whose Ext structure the function takes ("" = none)
@@ -253,6 +261,11 @@ func leanType(n ast.Node, t types.Type) string {
 		return "(List " + leanType(n, tt.Elem()) + ")"
 	case *types.Pointer:
 		return leanType(n, tt.Elem())
+	case *types.Map:
+		// a local map: the association list (fnarg.go); in a struct field the type stays Opaque
+		if fieldDepth == 0 {
+			return "(List (" + leanType(n, tt.Key()) + " × " + leanType(n, tt.Elem()) + "))"
+		}
 	case *types.Named:
 		obj := tt.Obj()
 		if obj.Pkg() == nil && obj.Name() == "error" {
@@ -417,7 +430,7 @@ func (t *fnTrans) ifaceCall(c *ast.CallExpr) (ast.Expr, *types.Func, bool) {
 		return nil, nil, false
 	}
 	rt := sel.Recv()
-	if isErrorType(rt) || isReaderType(rt) || isReaderAtRef(rt) {
+	if isErrorType(rt) || isReaderType(rt) || isReaderAtRef(rt) || isHashObj(rt) {
 		// (an io.ReaderAt reference has no methods in the translation: such a call is "not a translation target")
 		return nil, nil, false
 	}
@@ -827,10 +840,16 @@ func (t *fnTrans) expr(e ast.Expr) string {
 		if _, ok := t.ifaceLits[o]; ok {
 			fail(e, "use of the []interface{} variable %s other than ranging over it", x.Name)
 		}
+		if _, isClosure := t.closures[o]; isClosure && o != nil {
+			fail(e, "the closure %s is used as a value (translated: a call of it, or handing it to an external function)", x.Name)
+		}
 		switch oo := o.(type) {
 		case *types.Var:
 			if oo.Parent() == oo.Pkg().Scope() {
 				return t.globalConst(e, oo)
+			}
+			if isRefLocal(oo) {
+				fail(e, "the %s variable %s is used as a value (a reference in Go; translated: the operations listed in fnarg.go)", oo.Type(), x.Name)
 			}
 			return t.varRead(oo)
 		case *types.Nil:
@@ -914,6 +933,9 @@ func (t *fnTrans) expr(e ast.Expr) string {
 		fail(e, "selector %s", x.Sel.Name)
 	case *ast.CompositeLit:
 		ty := t.typeOf(e)
+		if s, ok := t.emptyMap(e); ok {
+			return s
+		}
 		switch u := ty.Underlying().(type) {
 		case *types.Struct:
 			lt := leanType(e, ty)
@@ -1184,6 +1206,9 @@ func (t *fnTrans) call(c *ast.CallExpr) string {
 			return "([] : List UInt8)"
 		}
 	case "builtin.make":
+		if s, ok := t.emptyMap(c); ok {
+			return s
+		}
 		if len(c.Args) == 2 {
 			if sl, ok := t.typeOf(c.Args[0]).Underlying().(*types.Slice); ok {
 				return fmt.Sprintf("(List.replicate (%s).toNat %s)", t.expr(c.Args[1]), t.zero(c, sl.Elem()))
@@ -1226,6 +1251,9 @@ func (t *fnTrans) call(c *ast.CallExpr) string {
 		if leanTypeIs(t.typeOf(se.X), "Int") && leanTypeIs(t.typeOf(c.Args[0]), "Int") {
 			return fmt.Sprintf("(intCmp %s %s)", t.expr(se.X), t.expr(c.Args[0]))
 		}
+	}
+	if s, ok := t.hashCall(c); ok {
+		return s
 	}
 	if recv, fo, ok := t.ifaceCall(c); ok {
 		// a method of an interface value, in expression position: no reader/writer argument
@@ -1397,6 +1425,13 @@ func markMutCall(info *types.Info, e ast.Expr, into map[types.Object]bool) {
 		if o := rootVar(info, c.Args[2]); o != nil {
 			into[o] = true
 		}
+	case "io.Copy":
+		// into a hash.Hash (fnarg.go): the hash object changes, a source that is a variable is read to the end
+		for _, a := range c.Args {
+			if o := rootVar(info, a); o != nil {
+				into[o] = true
+			}
+		}
 	case "encoding/binary.Write", "io.LimitReader", "io.ReadFull":
 		if o := rootVar(info, c.Args[0]); o != nil {
 			into[o] = true
@@ -1411,7 +1446,7 @@ func markMutCall(info *types.Info, e ast.Expr, into map[types.Object]bool) {
 		switch se.Sel.Name {
 		case "Read", "Next", "ReadByte", "Write", "WriteByte", "ReadFrom":
 			// (also on a reader / buffer that is a field: `p.certTable.Write(x)` writes through p)
-			if o := rootVar(info, se.X); o != nil && (isReaderType(o.Type()) || (isFieldPath(info, se.X) && isReaderType(typeOfIn(info, se.X)))) {
+			if o := rootVar(info, se.X); o != nil && (isReaderType(o.Type()) || (isHashObj(o.Type()) && se.Sel.Name == "Write") || (isFieldPath(info, se.X) && isReaderType(typeOfIn(info, se.X)))) {
 				into[o] = true
 				if se.Sel.Name == "Read" && len(c.Args) == 1 {
 					if bo := rootVar(info, c.Args[0]); bo != nil {
@@ -1718,6 +1753,11 @@ func (t *fnTrans) assign(n ast.Node, lhs ast.Expr, val string) string {
 			curAttach.active = false // the collection is rebound: no longer pre ++ cur :: rest
 		}
 		return fmt.Sprintf("let %s := %s\n", t.name(o), val)
+	case *ast.IndexExpr:
+		// m[k] = v on a local map (fnarg.go)
+		if mo, m, ok := t.refVar(l.X); ok && isMapType(mo.Type()) {
+			return t.assignObj(n, mo, fmt.Sprintf("(mapSet %s %s %s)", m, t.expr(l.Index), val))
+		}
 	case *ast.SelectorExpr:
 		if sel, ok := t.pi.info.Selections[l]; ok && sel.Kind() == types.FieldVal {
 			base := t.expr(l.X)
@@ -1847,6 +1887,9 @@ func (t *fnTrans) rhsFor(lhs, r ast.Expr) string {
 }
 
 func (t *fnTrans) mapExpr(e ast.Expr) string {
+	if mo, m, ok := t.refVar(e); ok && isMapType(mo.Type()) {
+		return m // a local map (fnarg.go)
+	}
 	var o types.Object
 	switch x := e.(type) {
 	case *ast.Ident:
@@ -1856,7 +1899,7 @@ func (t *fnTrans) mapExpr(e ast.Expr) string {
 	}
 	v, ok := o.(*types.Var)
 	if !ok || v.Parent() != v.Pkg().Scope() {
-		fail(e, "map that is not a package-level variable")
+		fail(e, "map that is neither a package-level nor a local variable")
 	}
 	pi := byTypes[v.Pkg().Path()]
 	nm := pi.short + "." + v.Name()
@@ -1911,6 +1954,7 @@ func (t *fnTrans) joinVars(nodes []ast.Node, declaredInside map[types.Object]boo
 	for _, n := range nodes {
 		if n != nil {
 			assignedVars(t.pi.info, n, set)
+			t.closureTouches(n, set, nil)
 		}
 	}
 	var out []types.Object
@@ -2141,6 +2185,8 @@ func (t *fnTrans) rangeStmt(x *ast.RangeStmt, after []ast.Stmt, c ctx) string {
 	// muts: outer variables assigned in the body (excluding the collection when threaded by pre)
 	mutSet := map[types.Object]bool{}
 	assignedVars(t.pi.info, x.Body, mutSet)
+	closureUsed := map[types.Object]bool{}
+	t.closureTouches(x.Body, mutSet, closureUsed)
 	if !needPre && collObj != nil && mutSet[collObj] {
 		fail(x, "the ranged collection is changed inside the loop")
 	}
@@ -2160,6 +2206,11 @@ func (t *fnTrans) rangeStmt(x *ast.RangeStmt, after []ast.Stmt, c ctx) string {
 	sort.Slice(muts, func(i, j int) bool { return muts[i].Pos() < muts[j].Pos() })
 	// captured: every known variable read in the body (other than muts), in declaration order
 	capSet := map[types.Object]bool{}
+	for o := range closureUsed {
+		if _, known := t.names[o]; known {
+			capSet[o] = true
+		}
+	}
 	ast.Inspect(x.Body, func(n ast.Node) bool {
 		if id, ok := n.(*ast.Ident); ok {
 			if o := t.pi.info.Uses[id]; o != nil {
@@ -2498,6 +2549,16 @@ func computeUsesX() {
 			ast.Inspect(fd.decl.Body, func(n ast.Node) bool {
 				if c, ok := n.(*ast.CallExpr); ok {
 					t := &fnTrans{fd: fd, pi: fd.pi}
+					if in := intrinsicCall(fd.pi.info, c); in != "" {
+						// a standard-library function that is a field of the package's Ext structure (fnarg.go)
+						addIntrinsic(fd.pi.short, in)
+						if fd.usesX == "" {
+							fd.usesX = fd.pi.short
+							changed = true
+						} else if fd.usesX != fd.pi.short && fd.xConflict == "" {
+							fd.xConflict = fmt.Sprintf("external functions of two Ext structures (%s, %s) in one function", fd.usesX, fd.pi.short)
+						}
+					}
 					if cd, _ := t.callee(c); cd != nil {
 						want := ""
 						if cd.opaque {
@@ -2789,6 +2850,11 @@ func extStructs() string {
 	for p := range extFields {
 		pk = append(pk, p)
 	}
+	for p := range extIntrinsics {
+		if _, ok := extFields[p]; !ok {
+			pk = append(pk, p)
+		}
+	}
 	// packages in the order of their first opaque function in targets.json
 	rank := func(fd *fnDecl) int {
 		for i, o := range targets {
@@ -2805,7 +2871,13 @@ func extStructs() string {
 	sort.Slice(pk, func(i, j int) bool {
 		// two packages can share their first opaque function (util.ParseUtf16Var for efivar and device): break
 		// the tie by name, or the order follows the map iteration and Gen.lean differs from run to run
-		if ri, rj := rank(extFields[pk[i]][0]), rank(extFields[pk[j]][0]); ri != rj {
+		first := func(p string) int {
+			if len(extFields[p]) == 0 {
+				return len(targets) // only intrinsics of the standard library (fnarg.go)
+			}
+			return rank(extFields[p][0])
+		}
+		if ri, rj := first(pk[i]), first(pk[j]); ri != rj {
 			return ri < rj
 		}
 		return pk[i] < pk[j]
@@ -2823,7 +2895,15 @@ func extStructs() string {
 			if sig.Recv() != nil {
 				tys = append(tys, leanType(fd.decl, sig.Recv().Type()))
 			}
+			var sigmas []string
 			for i := 0; i < sig.Params().Len(); i++ {
+				if fs, ok := sig.Params().At(i).Type().Underlying().(*types.Signature); ok {
+					// a function-typed parameter: state type, step function, state (fnarg.go)
+					bs, sigma := fnParamType(fd.decl, fs, len(sigmas))
+					tys = append(tys, bs...)
+					sigmas = append(sigmas, sigma)
+					continue
+				}
 				tys = append(tys, leanType(fd.decl, sig.Params().At(i).Type()))
 			}
 			var rs []string
@@ -2831,6 +2911,8 @@ func extStructs() string {
 			for _, i := range fd.mutParams {
 				rs = append(rs, leanType(fd.decl, sig.Params().At(i).Type()))
 			}
+			// then the states that the closures it was handed are left in
+			rs = append(rs, sigmas...)
 			for i := 0; i < sig.Results().Len(); i++ {
 				rs = append(rs, leanType(fd.decl, sig.Results().At(i).Type()))
 			}
@@ -2839,6 +2921,9 @@ func extStructs() string {
 				res = strings.Join(rs, " × ")
 			}
 			fmt.Fprintf(&b, "  %s : %s\n", fd.extField(p), strings.Join(append(tys, res), " → "))
+		}
+		for _, in := range extIntrinsics[p] {
+			fmt.Fprintf(&b, "  %s : %s\n", in, intrinsicTypes[in])
 		}
 		b.WriteString("\n")
 	}
